@@ -432,3 +432,88 @@ Section Series.
     Qed.
   End Neg.
 End Series.
+
+(* ---------- PowApprox ---------- *)
+Definition pow_eps (k : nat) : R := (6 * INR k + 8) * u18.
+
+Lemma series_loop_pos : forall exp x prec p r,
+  (0 < exp < P18)%Z -> (0 <= prec <= P18)%Z -> (0 <= x < P18)%Z ->
+  loop_pos p (pow_step exp x false prec) (1%Z, P18, P18, false) = inr (Ok r) ->
+  exists k : nat, (Z.of_nat k < pow_iteration_limit)%Z /\
+    Rabs (dR r - Rpower (1 + dR x) (dR exp)) <= dR prec + pow_eps k.
+Proof.
+  intros exp x prec p r Hexp Hprec Hx H.
+  pose proof (loop_pos_inv _ _ (pow_step exp x false prec) (inv_pos exp x false) (post exp x false (bound_pos prec))
+                (inv_pos_step exp x false prec Hexp Hprec eq_refl Hx) p _ (inv_pos_init exp x false)) as HL.
+  rewrite H in HL. unfold post in HL. destruct HL as (k & Hk & HL). exists k. split; [assumption|].
+  replace (1 + sg false * dR x) with (1 + dR x) in HL by (simpl sg; ring).
+  eapply Rle_trans; [exact HL|]. unfold bound_pos, pow_eps. pose proof (pos_INR k). pose proof u18_pos. nra.
+Qed.
+
+Lemma series_loop_neg : forall exp x prec p r,
+  (0 < exp < P18)%Z -> (0 <= prec <= P18)%Z -> (0 <= 2 * x <= P18)%Z ->
+  loop_pos p (pow_step exp x true prec) (1%Z, P18, P18, false) = inr (Ok r) ->
+  exists k : nat, (Z.of_nat k < pow_iteration_limit)%Z /\
+    Rabs (dR r - Rpower (1 - dR x) (dR exp)) <= dR prec + pow_eps k.
+Proof.
+  intros exp x prec p r Hexp Hprec Hx H.
+  pose proof (loop_pos_inv _ _ (pow_step exp x true prec) (inv_neg exp x true) (post exp x true (bound_neg prec))
+                (inv_neg_step exp x true prec Hexp Hprec eq_refl Hx) p _ (inv_neg_init exp x true)) as HL.
+  rewrite H in HL. unfold post in HL. destruct HL as (k & Hk & HL). exists k. split; [assumption|].
+  replace (1 + sg true * dR x) with (1 - dR x) in HL by (simpl sg; ring).
+  eapply Rle_trans; [exact HL|]. unfold bound_neg, pow_eps. pose proof (pos_INR k). pose proof u18_pos. nra.
+Qed.
+
+(* PowApprox on 1/2 <= base < 2, 0 < exp < 1, exp <> 1/2 (the ApproxSqrt shortcut is a different algorithm), any
+   precision 0 <= p <= 1: a returned value is within p + (6k + 8) ulp of base^exp, k < powIterationLimit the number of rounds *)
+Theorem pow_approx_bound_rounds : forall base exp prec r,
+  (P18 <= 2 * base)%Z -> (base < 2 * P18)%Z -> (0 < exp < P18)%Z -> exp <> pow_one_half -> (0 <= prec <= P18)%Z ->
+  pow_approx base exp prec = Ok r ->
+  exists k : nat, (Z.of_nat k < pow_iteration_limit)%Z /\
+    Rabs (dR r - Rpower (dR base) (dR exp)) <= dR prec + pow_eps k.
+Proof.
+  intros base exp prec r Hb1 Hb2 Hexp Hhalf Hprec H.
+  assert (HP : (0 < P18)%Z) by (vm_compute; reflexivity).
+  unfold pow_approx in H. revert H. generalize (Z.to_pos pow_iteration_limit). intros p H.
+  destruct (Z.ltb_spec 0 base) as [_|]; [|lia]. cbn [negb] in H.
+  destruct (Z.eqb_spec exp 0) as [|_]; [lia|].
+  destruct (Z.eqb_spec exp pow_one_half) as [|_]; [contradiction|].
+  pose proof (abs_diff_sign_spec base P18) as HA.
+  destruct (abs_diff_sign base P18) as [[x xneg]|]; [|discriminate H]. cbn [bind] in H.
+  destruct HA as [(-> & Ex & Hle)|(-> & Ex & Hlt)].
+  - destruct (loop_pos p (pow_step exp x false prec) (1%Z, P18, P18, false)) as [st|r0] eqn:EL; [discriminate H|].
+    subst r0. replace (dR base) with (1 + dR x) by (subst x; rewrite dR_sub, dR_P18; ring).
+    apply (series_loop_pos exp x prec p r Hexp Hprec ltac:(lia) EL).
+  - destruct (loop_pos p (pow_step exp x true prec) (1%Z, P18, P18, false)) as [st|r0] eqn:EL; [discriminate H|].
+    subst r0. replace (dR base) with (1 - dR x) by (subst x; rewrite dR_sub, dR_P18; ring).
+    apply (series_loop_neg exp x prec p r Hexp Hprec ltac:(lia) EL).
+Qed.
+
+Lemma pow_eps_uniform : forall k : nat, (Z.of_nat k < pow_iteration_limit)%Z -> pow_eps k <= / 10 ^ 12.
+Proof.
+  intros k Hk. unfold pow_eps, u18. rewrite T18_val.
+  assert (Hk' : INR k <= 149999).
+  { rewrite INR_IZR_INZ. apply IZR_le. assert (pow_iteration_limit = 150000%Z) by reflexivity. lia. }
+  pose proof (pos_INR k).
+  apply Rmult_le_reg_r with (r := 10 ^ 18); [apply pow_lt; lra|].
+  rewrite Rmult_assoc, Rinv_l by (apply pow_nonzero; lra).
+  replace (/ 10 ^ 12 * 10 ^ 18) with (10 ^ 6) by (field; apply pow_nonzero; lra). lra.
+Qed.
+
+(* uniform version: within precision + 1e-12 (for the precision 1e-8 used by Pow: 1.0001e-8) *)
+Theorem pow_approx_bound : forall base exp prec r,
+  (P18 <= 2 * base)%Z -> (base < 2 * P18)%Z -> (0 <= exp < P18)%Z -> exp <> pow_one_half -> (0 <= prec <= P18)%Z ->
+  pow_approx base exp prec = Ok r ->
+  Rabs (dR r - Rpower (dR base) (dR exp)) <= dR prec + / 10 ^ 12.
+Proof.
+  intros base exp prec r Hb1 Hb2 Hexp Hhalf Hprec H.
+  assert (HP : (0 < P18)%Z) by (vm_compute; reflexivity).
+  destruct (Z.eq_dec exp 0) as [->|Hne].
+  - rewrite pow_approx_exp_zero in H by lia. inversion H; subst r.
+    replace (dR 0) with 0 by (rewrite dR_eq; simpl; ring). rewrite Rpower_O.
+    2:{ rewrite dR_eq. apply Rmult_lt_0_compat; [apply IZR_lt; lia|apply u18_pos]. }
+    rewrite dR_P18. replace (1 - 1) with 0 by ring. rewrite Rabs_R0.
+    pose proof (dR_nonneg prec ltac:(lia)). assert (0 < / 10 ^ 12) by (apply Rinv_0_lt_compat, pow_lt; lra). lra.
+  - destruct (pow_approx_bound_rounds base exp prec r Hb1 Hb2 ltac:(lia) Hhalf Hprec H) as (k & Hk & HB).
+    pose proof (pow_eps_uniform k Hk). lra.
+Qed.
